@@ -44,6 +44,14 @@ func (e *Env) Close() {
 	e.H.ClearObservers()
 	e.W.SetGate(nil)
 	e.W.Close()
+	// no goroutine created by go-orbit-db may survive into the next case: a
+	// straggler calling End after Reset would unbalance the pending counter
+	for i := 0; i < 300; i++ {
+		if len(orbitGoroutines()) == 0 {
+			break
+		}
+		time.Sleep(10 * time.Millisecond)
+	}
 	// wait for the hook traffic of exiting goroutines to stop
 	last := e.H.Generation()
 	stable := 0
